@@ -63,3 +63,17 @@ Print Assumptions C09_split_partitions.
 Print Assumptions C09_recurse_eq_brute.
 Print Assumptions C09_render_eq_brute.
 Print Assumptions C09_workers_independent.
+
+(* THE RECURSION IS THE SOURCE'S.  translate/gen_heightmap.py re-reads Heightmap::recurse (heightmap.cpp) on every run: the
+   order of its tests (everything already at the top of the view; small enough for pixel-by-pixel; interval classification),
+   the fill condition `out.isFilled() && out.isSafe()`, the recursion condition `!out.isEmpty()`, the default split mask and
+   the order of the two recursive calls (rs.second, the higher half, first) - statements recognised by their parsed shape,
+   conditions and actions translated (Gen/HeightmapRecurse_gen.v).  It is the model's [recurse] with the classification
+   oracle read off the interval result as the code reads it ([classify_of]): *)
+From LF Require Gen.HeightmapRecurse_gen Render.HeightmapAgree.
+Theorem C09_recurse_from_source :
+  forall (inside : nat -> nat -> nat -> bool) (filled safe empty : view -> bool) fuel limit v im,
+    HeightmapRecurse_gen.recurse_gen inside filled safe empty fuel limit v im
+    = recurse inside (HeightmapAgree.classify_of filled safe empty) fuel limit v im.
+Proof. exact HeightmapAgree.recurse_gen_eq. Qed.
+Print Assumptions C09_recurse_from_source.
